@@ -33,9 +33,11 @@ def _c02_runs(tier, seed, replay):
         return [["crash", "--kind", "exhaustive", "--depth", "3", "--n", "100000"],
                 ["crash", "--seed", S(seed, 1), "--n", "40", "--maxops", "14"],
                 ["crash", "--seed", S(seed, 2), "--n", "40", "--maxops", "14"],
+                ["repl", "--mode", "crash", "--seed", S(seed, 3), "--n", "20", "--maxlen", "12"],
                 ["crash", "--kind", "large", "--seed", S(seed, 4), "--n", "1"]]
     return ([["crash", "--kind", "exhaustive", "--depth", "4", "--n", "3000"]]
             + [["crash", "--seed", S(seed, 10 + i), "--n", "120", "--maxops", "16"] for i in range(10)]
+            + [["repl", "--mode", "crash", "--seed", S(seed, 30 + i), "--n", "60", "--maxlen", "16"] for i in range(4)]
             + [["crash", "--kind", "large", "--seed", S(seed, 40 + i), "--n", "2"] for i in range(2)])
 
 def _c07_runs(tier, seed, replay):
@@ -52,13 +54,56 @@ def _c08_runs(tier, seed, replay):
         return [["log", "--kind", "large", "--seed", S(seed, 1), "--n", "4"],
                 ["crash", "--kind", "large", "--seed", S(seed, 2), "--n", "1"],
                 ["log", "--seed", S(seed, 3), "--n", "150", "--maxops", "30"],
-]
+                ["repl", "--seed", S(seed, 4), "--n", "40", "--maxlen", "70"]]
     return ([["log", "--kind", "large", "--seed", S(seed, 10 + i), "--n", "4"] for i in range(6)]
             + [["crash", "--kind", "large", "--seed", S(seed, 20 + i), "--n", "2"] for i in range(4)]
             + [["log", "--seed", S(seed, 30 + i), "--n", "300", "--maxops", "40"] for i in range(4)]
 )
 
+def _c03_runs(tier, seed, replay):
+    if tier == "quick":
+        return [["repl", "--seed", S(seed, i), "--n", "60", "--maxlen", str(m)] for i, m in [(1, 9), (2, 24), (3, 40), (4, 70)]]
+    return [["repl", "--seed", S(seed, 10 + i), "--n", "300", "--maxlen", str(m)] for i, m in enumerate([9, 9, 24, 24, 40, 40, 70, 70, 120, 120, 300, 300])]
+
+def _c04_runs(tier, seed, replay):
+    if tier == "quick":
+        return [["adv", "--kind", "alter", "--seed", S(seed, i), "--n", "90", "--maxlen", str(m)] for i, m in [(1, 8), (2, 12), (3, 20), (4, 30)]]
+    return [["adv", "--kind", "alter", "--seed", S(seed, 10 + i), "--n", "500", "--maxlen", str(m)] for i, m in enumerate([8, 8, 12, 12, 20, 20, 30, 30, 50, 50, 12, 20])]
+
+def _c09_runs(tier, seed, replay):
+    if tier == "quick":
+        return ([["adv", "--kind", "requests", "--seed", S(seed, i), "--n", "100", "--maxlen", str(m)] for i, m in [(1, 8), (2, 16)]]
+                + [["adv", "--kind", "alter", "--seed", S(seed, i), "--n", "80", "--maxlen", str(m)] for i, m in [(3, 10), (4, 24)]])
+    return ([["adv", "--kind", "requests", "--seed", S(seed, 10 + i), "--n", "600", "--maxlen", str(m)] for i, m in enumerate([8, 8, 16, 16, 30, 30, 60])]
+            + [["adv", "--kind", "alter", "--seed", S(seed, 30 + i), "--n", "500", "--maxlen", str(m)] for i, m in enumerate([10, 10, 24, 24, 40])])
+
+REPL_TRUSTED = LOG_TRUSTED + ["Ed25519 verification of ed25519-dalek is modelled by the RFC 8032 implementation in Lean (same accept/reject on every signature the runs produce)"]
+
 PROPS = {
+    "C03": dict(
+        theorems=["HC.C03.accept_commits", "HC.C03.accepted_events"],
+        bridge_modules=["HC.Bridge.Oplog", "HC.Bridge.Stores"], bridging=OPLOG_BRIDGE + STORES_BRIDGE,
+        runs=_c03_runs,
+        partial="verify_complete (create_proof's answer to a well-formed request passes verify_proof) is not proved; validated: every honest proof generated is accepted by crate and model, replicas converge. Proved: a verified, commitable proof is always applied, with exactly the prescribed events.",
+        rule="writer histories (appends, batches, clears, reopen) x replica request orders {block i with nodes from missing_nodes, hash of a tree node, seek, upgrade to any length in (replica, writer]} incl. partial upgrades with additional nodes, several growth rounds, replica reopen; create_proof output (every node, size, hash, signature), acceptance, journals and probes compared with the Lean model; oracle: accepted, replica bytes = writer bytes, length = writer's length at the upgrade. distinct = distinct transcripts",
+        trusted=REPL_TRUSTED,
+    ),
+    "C04": dict(
+        theorems=["HC.C04.refuse_fork", "HC.C04.refuse_invalid", "HC.C04.refuse_noop", "HC.C04.refuse_before_commit"],
+        bridge_modules=["HC.Bridge.Stores"], bridging=STORES_BRIDGE,
+        runs=_c04_runs,
+        partial="soundness of acceptance (an accepted proof installs only what the writer signed, up to a hash collision or forgery) is not proved; checked on the implementation for every altered proof. Proved: every refused/erroneous proof leaves storage, memory and events untouched.",
+        rule="for every honest proof: 3-8 single-field alterations out of {value flip/length, block/hash index +-1, node hash flip/zero, node index/length +-1 (not the unauthenticated bottom sizes of hash/seek sections), node drop/dup/swap/insert, upgrade start/length +-1, empty upgrade, fork +-1, signature flip/short, signature of another key, section removal, whole proof of another writer}; oracle: refused => probes identical before/after and no storage operation; accepted => every held block equals the writer's, (length, byte length) is a prefix sum of the writer's log; afterwards honest replication completes. Outcome, journals and probes compared with the Lean model",
+        trusted=REPL_TRUSTED,
+    ),
+    "C09": dict(
+        theorems=["HC.C09.queue_total", "HC.C09.climb_total", "HC.C09.verify_tree_total_partial"],
+        bridge_modules=["HC.Bridge.Stores"], bridging=STORES_BRIDGE,
+        runs=_c09_runs,
+        partial="verify_upgrade and create_valueless_proof are not proved total; their panic sites are listed in HC/Model/Proof.lean and exercised by the runs (no panic/abort/hang observed; a watchdog turns non-termination into a reported hang)",
+        rule="cores: empty, one block, multi-root, with cleared blocks; request tuples with each of block/hash/seek/upgrade absent or at boundary values {0,1,2,len-1,len,len+1,2len,2len+1,2len+2,3,7,2^32,2^40-1,len/2}, on writer and replica; proofs: the C04 alteration set; every call under catch_unwind with a 60 s watchdog; follow-up append/probe on the same core; outcome class compared with the Lean model",
+        trusted=REPL_TRUSTED, assumptions=["numeric fields below 2^40"],
+    ),
     "C01": dict(
         theorems=["HC.C01.entry_reopen", "HC.C01.header_reopen", "HC.C01.frame_reopen", "HC.C01.held_after", "HC.C01.refines_partial"],
         bridge_modules=["HC.Bridge.Oplog", "HC.Bridge.Stores"], bridging=OPLOG_BRIDGE + STORES_BRIDGE,
